@@ -118,6 +118,49 @@ class AltFilter(sansldap.LDAPFilter):
         return AltFilter(raw=reader.read_octet_string(ASN1Tag(TagClass.CONTEXT_SPECIFIC, cls.filter_id, False))[::-1])
 
 
+EDGE_TAGS = (30, 31, 32, 127, 128)  # around the low/high tag number form (31) and the 1/2-octet high form (127/128)
+
+
+def _mk_edge_filter(n):
+    @dataclasses.dataclass(frozen=True)
+    class EdgeFilter(sansldap.LDAPFilter):
+        filter_id: int = dataclasses.field(init=False, repr=False, default=n)
+
+        value: str
+
+        def pack(self, writer: ASN1Writer, options: sansldap.FilterOptions) -> None:
+            writer.write_octet_string(self.value.encode(options.string_encoding), tag=ASN1Tag(TagClass.CONTEXT_SPECIFIC, self.filter_id, False))
+
+        @classmethod
+        def unpack(cls, reader: ASN1Reader, options: sansldap.FilterOptions):
+            return cls(value=reader.read_octet_string(ASN1Tag(TagClass.CONTEXT_SPECIFIC, cls.filter_id, False)).decode(options.string_encoding))
+
+    EdgeFilter.__name__ = EdgeFilter.__qualname__ = "EdgeFilter%d" % n
+    return EdgeFilter
+
+
+def _mk_edge_auth(n):
+    @dataclasses.dataclass(frozen=True)
+    class EdgeAuth(sansldap.AuthenticationCredential):
+        auth_id: int = dataclasses.field(init=False, repr=False, default=n)
+
+        token: bytes
+
+        def pack(self, writer: ASN1Writer, options: sansldap.AuthenticationOptions) -> None:
+            writer.write_octet_string(self.token, tag=ASN1Tag(TagClass.CONTEXT_SPECIFIC, self.auth_id, False))
+
+        @classmethod
+        def unpack(cls, reader: ASN1Reader, options: sansldap.AuthenticationOptions):
+            return cls(token=reader.read_octet_string(tag=ASN1Tag(TagClass.CONTEXT_SPECIFIC, cls.auth_id, False), hint="EdgeAuth.token"))
+
+    EdgeAuth.__name__ = EdgeAuth.__qualname__ = "EdgeAuth%d" % n
+    return EdgeAuth
+
+
+EDGE_FILTERS = {n: _mk_edge_filter(n) for n in EDGE_TAGS}
+EDGE_AUTHS = {n: _mk_edge_auth(n) for n in EDGE_TAGS}
+
+
 @dataclasses.dataclass(frozen=True)
 class SubControl(sansldap.ShowDeletedControl):
     """An application control that derives from a public built-in control class but has its own OID."""
@@ -142,3 +185,11 @@ REGISTER_METHOD = {
 }
 SLOT = {"SubControl": "subcontrol", "CustomAuth": "auth", "AltAuth": "auth", "CustomControl": "control", "AltControl": "control",
         "CustomFilter": "filter", "AltFilter": "filter"}
+
+for _n in EDGE_TAGS:
+    BY_NAME["EdgeFilter%d" % _n] = EDGE_FILTERS[_n]
+    BY_NAME["EdgeAuth%d" % _n] = EDGE_AUTHS[_n]
+    REGISTER_METHOD["EdgeFilter%d" % _n] = "register_filter"
+    REGISTER_METHOD["EdgeAuth%d" % _n] = "register_auth_credential"
+    SLOT["EdgeFilter%d" % _n] = "filter%d" % _n
+    SLOT["EdgeAuth%d" % _n] = "auth%d" % _n
